@@ -111,7 +111,7 @@ _BIN_PREC = [
 ]
 
 
-_TEMPLATE_NAMES = {"numeric_limits", "is_signed", "remove_cv", "remove_reference", "LeastWidthInteger", "make_unsigned", "make_signed"}
+_TEMPLATE_NAMES = {"numeric_limits", "is_signed", "remove_cv", "remove_reference", "LeastWidthInteger", "make_unsigned", "make_signed", "underlying_type"}
 
 
 class Parser:
@@ -169,6 +169,10 @@ class Parser:
             break
         q = "::".join(parts)
         q = re.sub(r"^std::", "", q)
+        # the underlying type of an enum is modelled as the enum's own integer type in the environment
+        um = re.fullmatch(r"underlying_type<\s*(?:typename\s+)?([\w:]+?)\s*>::type", q)
+        if um and (um.group(1) in self.type_names or um.group(1) in BUILTIN_TYPES):
+            return um.group(1)
         if q in self.type_names or q in BUILTIN_TYPES:
             return q
         self.i = save
